@@ -226,6 +226,16 @@ SlipAt(j) ==
     IN  IF q % 29 = 0 THEN CItem("arg_slips", c0 @@ [mut |-> [k |-> "surplus", at |-> 0]])
         ELSE CItem("arg_slips", c0 @@ [mut |-> [k |-> kind, at |-> at]])
 
+\* ---- M: requests for text: --help / -h / help / --version / -V in every place of lines of every form, with the secrets
+\* in the environment and on the line: status 0 or an ordinary refusal, never a crash (the text itself is not specified)
+TextToks == <<"--help", "-h", "help", "--version", "-V">>
+NTextReq == IF Thorough THEN 400 ELSE 120
+TextReqAt(j) ==
+  LET f   == SlipForms[1 + (j % Len(SlipForms))]
+      c0  == Form(f, IF j % 2 = 0 THEN FlagAcct(j % 3) ELSE PlainAcct(Mn2), ChanNo(j), <<84, j>>) @@ [style |-> StyleAt(j % 5)]
+      n   == Len(Argv0(c0))
+  IN  CItem("text_requests", c0 @@ [mut |-> [k |-> "text", at |-> 1 + ((j \div Len(SlipForms)) % (n + 1)), tok |-> TextToks[1 + ((j \div 3) % 5)]]])
+
 O1 == NSample
 O2 == O1 + NLattice
 O3 == O2 + 3 * NSessions
@@ -237,7 +247,8 @@ O8 == O7 + NMagicItems
 O9 == O8 + NNames
 O10 == O9 + NHugeIn
 O11 == O10 + NStyles
-Count == O11 + NSlips
+O12 == O11 + NSlips
+Count == O12 + NTextReq
 ItemAt(g) ==
   IF g <= O1 THEN SampleAt(g)
   ELSE IF g <= O2 THEN LatticeAt(g - O1)
@@ -250,7 +261,8 @@ ItemAt(g) ==
   ELSE IF g <= O9 THEN NameAt(g - O8)
   ELSE IF g <= O10 THEN HugeInAt(g - O9)
   ELSE IF g <= O11 THEN StyleItemAt(g - O10)
-  ELSE SlipAt(g - O11)
+  ELSE IF g <= O12 THEN SlipAt(g - O11)
+  ELSE TextReqAt(g - O12)
 Histories == 0
 VARIABLE n
 INSTANCE GenBase
